@@ -211,18 +211,21 @@ LEVEL_TEXT["C16"] = {
 
 LEVEL_TEXT["C07"] = {
     "text": "The stream parser is modelled separately from the slice parser (elf_stream.rs accessor by accessor, on a CachingReader over a Device "
-            "whose every I/O call consumes one entry of an arbitrary schedule). Proved for every schedule and history: the cache invariant "
-            "(each cached buffer = the stream's bytes of its key range); read_bytes_refines (an Ok answer is byte-for-byte get_bytes of the "
-            "slice parser on the same contents); read_bytes_complete (with a legal reader - short reads, Interrupted, no errors/EOF - a range "
-            "that fits is delivered, one that does not is an error). open_equiv: for every content < 2^63 bytes, byte-order policy and legal "
-            "schedule, open_stream succeeds exactly when minimal_parse of the same bytes succeeds, with the same file header, and the stream's "
-            "section/program header vectors are exactly the entries of the slice parser's lazy tables (section_headers_equiv, "
-            "program_headers_equiv incl. the e_shnum=0 / PN_XNUM escapes through shdr[0]); both disjuncts shown inhabited. Query-level "
-            "refinement theorems (<query>_refines, see Props/C07) cover the queries listed there; the remaining queries are established by "
-            "the correspondence: random histories with repetition under legal schedules, compared with the model AND with the real ElfBytes "
-            "on the same bytes under the property's own relation.",
+            "whose every I/O call consumes one entry of an arbitrary schedule). Proved for every schedule and history: the cache invariant; "
+            "read_bytes_refines / read_bytes_complete (reader layer = get_bytes of the slice parser on legal readers: short reads, Interrupted, "
+            "no errors/EOF). open_equiv: for every content < 2^63 bytes, byte-order policy and legal schedule, open_stream succeeds exactly when "
+            "minimal_parse of the same bytes succeeds, with the same file header, and the stream's section/program header vectors are exactly "
+            "the entries of the slice parser's lazy tables (incl. the e_shnum=0 / PN_XNUM escapes through shdr[0]). Query level: a simulation "
+            "relation Sim is established by open (open_sim), preserved by every query whatever its outcome and hence by every history "
+            "(history_sim, reachable_sim: any order, any number of times), and under Sim each query that succeeds on the slice parser succeeds "
+            "on the stream parser with the same content: section_data (uncompressed, NOBITS), section_data_as_strtab/rels/relas/notes, "
+            "segment_data_as_notes, section_headers_with_strtab, section_header_by_name, symbol_table/dynamic_symbol_table, dynamic (scoped "
+            "as the property is; the scope is shown necessary by a concrete 184-byte file), symbol_version_table. Content equality = same "
+            "parser/byte order/class/cursor and SameBytes data; congruence lemmas show that everything tables, iterators, string lookups and "
+            "UTF-8 validation yield depends only on those. The correspondence runs random histories with repetition under legal schedules "
+            "against the model AND the real ElfBytes on the same bytes.",
     "note": COMMON_NOTE + " std::io::Read::read_exact's default loop, HashMap as a finite map and Vec are modelled, not verified.",
-    "technique": "Lean 4 proof (reader-layer refinement, open_stream = minimal_parse, all legal schedules) + differential correspondence of histories against model and ElfBytes",
+    "technique": "Lean 4 proof (simulation stream parser / slice parser: open + every query, all legal schedules, all histories) + differential correspondence of histories against model and ElfBytes",
 }
 LEVEL_TEXT["C08"] = {
     "text": "Theorems over the I/O/allocation trace of the model, for every contents, history and schedule: every buffer allocation event is "
